@@ -114,6 +114,37 @@ def vmop_cross_check(cases):
             continue        # NaN == NaN raw-bits shortcut of generic Eq (typed_agrees_when_tagged_eq_ff_refuted)
         if o != g:
             bad.append((line, g))
+    # guarded opcodes: ...IIG arithmetic equals the generic op on every pair; ...FFG arithmetic unless both are ints;
+    # the guarded orderings on two numbers (FFG: not both ints); guarded Eq/Ne when no operand is a float
+    for _, _, line in cases:
+        q, o = line.split("\t")
+        t = q.split()
+        if t[0] != "QBin":
+            continue
+        m = re.fullmatch(r"(Add|Sub|Mul|Div|Mod|Lt|Le|Gt|Ge|Eq|Ne)(IIG|FFG)", t[1][2:])
+        if not m:
+            continue
+        a, b = int(t[2]), int(t[3])
+        ka, kb = kind_of_word(a), kind_of_word(b)
+        if (ka == "int" and a >> 63) or (kb == "int" and b >> 63):
+            continue
+        g = gen.get((m.group(1), t[2], t[3]))
+        if g is None:
+            continue
+        opn, fam = m.group(1), m.group(2)
+        both_int = ka == "int" and kb == "int"
+        num = ka in ("int", "float") and kb in ("int", "float")
+        if opn in ("Add", "Sub", "Mul", "Div", "Mod"):
+            applies = fam == "IIG" or not both_int
+        elif opn in ("Lt", "Le", "Gt", "Ge"):
+            applies = num and (fam == "IIG" or not both_int)
+        else:
+            applies = ka != "float" and kb != "float" and (fam == "IIG" or not both_int)
+        if not applies:
+            continue
+        n += 1
+        if o != g:
+            bad.append((line, g))
     return n, bad
 
 
@@ -137,7 +168,7 @@ def tie_vmop(ctx, profiles, pairs, lite=False):
         ctx.cov["vmop_typed_vs_generic_checked"] = ctx.cov.get("vmop_typed_vs_generic_checked", 0) + n
         for line, g in bad[:3]:
             ctx.violation("typed-op-differs-from-generic:" + line.split()[1],
-                          "typed opcode on correctly tagged operands differs from the generic opcode",
+                          "typed/guarded opcode differs from the generic opcode on operands where the theorems say they agree",
                           {"case": line, "generic": g, "profile": prof})
         if not debug:
             pl = [l for _, o, l in cases if o == "OP"]
@@ -456,13 +487,16 @@ def run_programs(path, progs, opts, budget=300000):
 
 def classify(case, o, r):
     """o, r = (class, mism, output, detail) of the typed and the reference run.
-    Returns None (fine), ("skip", why), ("broken", why) or ("viol", signature, what)."""
+    Returns None (fine), ("skip", why), ("refviol", signature, what) or ("viol", signature, what)."""
     ocl, om, oout, odet = o
     rcl, rm, rout, rdet = r
     if ocl == "compile-error":
         return ("skip", "rejected-by-checker")
     if rcl == "panic" or rm > 0:
-        return ("broken", f"reference run is not generic (class {rcl}, mismatches {rm}, {rdet[:80]})")
+        # the reference is itself an accepted program (all operands laundered through untyped code): a misread
+        # or panic there is a violation in its own right, with the reference program as the failing input
+        return ("refviol", f"untyped-code-misread:{case['position']}:{case['T']}",
+                f"the all-dynamic reference program itself misreads a value (class {rcl}, mismatches {rm}, {rdet[:80]})")
     if rcl == "compile-error":
         return ("skip", "reference-rejected")
     same = (case["D"], case["T"]) in SAME_TYPE
@@ -521,10 +555,12 @@ def pipeline(ctx, path, prof, cases, opts):
                     stats["ok_same_as_generic"] += 1
             elif v[0] == "skip":
                 stats["rejected_by_checker" if v[1] == "rejected-by-checker" else "reference_rejected"] += 1
-            elif v[0] == "broken":
-                if not any(b.startswith("pipeline reference") for b in ctx.broken):
-                    ctx.broken.append(f"pipeline reference: {v[1]} [{c['position']} {c['detail']} -O{o_}]")
-                    ctx.cov["broken_reference_program"] = c["ref"]
+            elif v[0] == "refviol":
+                stats["violating_runs"] += 1
+                if v[1] not in sigs:
+                    rc = dict(c)
+                    rc["typed"] = c["ref"]          # replaying runs the failing (reference) program as the subject
+                    sigs[v[1]] = (rc, o_, r, r, v[2])
             else:
                 stats["violating_runs"] += 1
                 if v[1] not in sigs:
@@ -584,7 +620,7 @@ def run(ctx):
             ctx.cov["evaluations"] = 1
             return
     # ---- tie 1
-    t = tie_vmop(ctx, ["dev", "release"], 60 if quick else 1500, lite=quick)
+    t = tie_vmop(ctx, ["dev", "release"], 40 if quick else 1500, lite=quick)
     ctx.log("opcode tie done:", t)
     # ---- ties 2 and 3
     rng = random.Random(ctx.seed)
